@@ -8,16 +8,19 @@ THOROUGH_CAP = 6e8
 
 # how a disagreement found on a schema is attributed: judge label -> property ('*' = any other label)
 RELABEL = {
-    'include_noskip': {'*': 'C13'}, 'include_inlined': {'*': 'C13'}, 'include_directives': {'*': 'C13'},
-    'ws_tokens': {'*': 'C08'}, 'ws_noskip_calls_skip': {'*': 'C08'}, 'ws_near_miss': {'*': 'C08'}, 'ws_custom': {'*': 'C08'},
-    'ws_lookahead_closure': {'*': 'C08'},
-    'memo_check': {'C06': 'C06', '*': 'C05'}, 'memo_plain': {'C06': 'C06', '*': 'C05'}, 'memo_string': {'C06': 'C06', '*': 'C05'},
-    'leftrec_first': {'C10': 'C10', '*': 'C07'}, 'leftrec_last': {'*': 'C07'}, 'leftrec_retry': {'C10': 'C10', '*': 'C07'},
-    'leftrec_nullable': {'*': 'C07'},
-    'check2_plain': {'*': 'C14'}, 'extern_ctx': {'*': 'C14'}, 'trace_rules': {'*': 'C19'},
-    'position_skip': {'*': 'C09'}, 'position_string': {'*': 'C09'}, 'position_root': {'*': 'C09'},
-    'string_rule': {'C09': 'C09', '*': 'C02'}, 'char_rule': {'C14': 'C14', 'C10': 'C10', '*': 'C01'},
-    'enum_field': {'*': 'C02'}, 'boxed': {'*': 'C02'}, 'box_merge': {'*': 'C02'}, 'override_simple': {'*': 'C02'}, 'override_enum': {'*': 'C02'},
+    'include_noskip': {'C01': ['C13', 'C08', 'C01'], '*': ['C13']}, 'include_inlined': {'C01': ['C13', 'C08'], '*': ['C13']},
+    'include_directives': {'*': ['C13']},
+    'opt_include': {'C10': ['C13', 'C10'], '*': ['C13']}, 'opt_inlined': {'C10': ['C13', 'C10'], '*': ['C13']},
+    'ws_tokens': {'*': ['C08']}, 'ws_noskip_calls_skip': {'*': ['C08']}, 'ws_near_miss': {'*': ['C08']}, 'ws_custom': {'*': ['C08']},
+    'ws_lookahead_closure': {'C10': ['C10', 'C08'], '*': ['C08']},
+    'memo_check': {'C06': ['C06'], '*': ['C05']}, 'memo_plain': {'C06': ['C06'], '*': ['C05']}, 'memo_string': {'C06': ['C06'], '*': ['C05']},
+    'leftrec_first': {'C10': ['C10'], 'C02': ['C07', 'C02'], '*': ['C07']}, 'leftrec_last': {'*': ['C07']},
+    'leftrec_retry': {'C10': ['C10'], 'C02': ['C07', 'C02', 'C05'], '*': ['C07']},
+    'leftrec_nullable': {'*': ['C07']},
+    'check2_plain': {'*': ['C14', 'C12']}, 'extern_ctx': {'*': ['C14']}, 'trace_rules': {'*': ['C19']},
+    'position_skip': {'*': ['C09']}, 'position_string': {'*': ['C09']}, 'position_root': {'*': ['C09']}, 'position_root_bom': {'*': ['C09']},
+    'string_rule': {'C09': ['C09'], '*': ['C02']}, 'char_rule': {'C14': ['C14'], 'C10': ['C10'], '*': ['C01']},
+    'enum_field': {'*': ['C02']}, 'boxed': {'*': ['C02']}, 'box_merge': {'*': ['C02']}, 'override_simple': {'*': ['C02']}, 'override_enum': {'*': ['C02']},
 }
 # driver-level verdicts (reject / compile / same_as) and compile errors are attributed to:
 STATIC_PROP = {'reject_nonascii_insensitive': 'C04', 'keywords': 'C03', 'layout_variants': 'C12', 'layout_tight': 'C12'}
@@ -36,13 +39,15 @@ def outputs_of(name, sdef):
     m = RELABEL.get(name)
     if m is None:
         return set(sdef.props) | {'C03', 'C04'}
-    out = set(m.values()) | {'C03', 'C04'}
+    out = {p for v in m.values() for p in v} | {'C03', 'C04'}
     return out
 
 def relabel(name, label):
+    """properties under which a disagreement with judge label `label` on schema `name` is reported"""
+    if label == 'C04': return ['C04']
     m = RELABEL.get(name)
-    if m is None: return label
-    return m.get(label, m.get('*', label))
+    if m is None: return [label]
+    return m.get(label, m.get('*', [label]))
 
 def _cargo_env(gen=None):
     env = dict(os.environ, CARGO_NET_OFFLINE='true')
@@ -145,15 +150,15 @@ def run_schema(T, name, n):
     except subprocess.TimeoutExpired:
         return {'name': name, 'status': 'error', 'why': 'timeout'}
     out = p.stdout
-    m = re.search(r'T-PASS (\S+) n<=(\d+) tables=(\d+) valid=(\d+) accepted=(\d+) rejected=(\d+) distinct_end_offsets=(\d+) nontrivial=(\d+)', out)
-    if m:
-        return {'name': name, 'status': 'pass', 'n': int(m.group(2)), 'tables': int(m.group(3)), 'valid': int(m.group(4)), 'accepted': int(m.group(5)),
-                'rejected': int(m.group(6)), 'end_offsets': int(m.group(7)), 'nontrivial': int(m.group(8)), 'wall_s': round(time.time() - t0, 2)}
-    m = re.search(r'T-FAIL (\S+) prop=(\S+) what=(".*?") after=(\d+) tables=(.*?) kv=(.*)$', out, re.M)
-    if m:
-        return {'name': name, 'status': 'fail', 'label': m.group(2), 'what': json.loads(m.group(3)), 'after': int(m.group(4)),
-                'tables': m.group(5), 'kv': m.group(6).split(), 'n': n, 'wall_s': round(time.time() - t0, 2)}
-    return {'name': name, 'status': 'error', 'why': (out + p.stderr)[-500:]}
+    m = re.search(r'T-(PASS|DONE) (\S+) n<=(\d+) tables=(\d+) valid=(\d+) accepted=(\d+) rejected=(\d+) distinct_end_offsets=(\d+) nontrivial=(\d+)', out)
+    if not m:
+        return {'name': name, 'status': 'error', 'why': (out + p.stderr)[-500:]}
+    res = {'name': name, 'status': 'pass' if m.group(1) == 'PASS' else 'fail', 'n': int(m.group(3)), 'tables': int(m.group(4)), 'valid': int(m.group(5)),
+           'accepted': int(m.group(6)), 'rejected': int(m.group(7)), 'end_offsets': int(m.group(8)), 'nontrivial': int(m.group(9)),
+           'wall_s': round(time.time() - t0, 2), 'fails': []}
+    for fm in re.finditer(r'^T-FAIL (\S+) prop=(\S+) what=(".*?") after=(\d+) tables=(.*?) kv=(.*)$', out, re.M):
+        res['fails'].append({'label': fm.group(2), 'what': json.loads(fm.group(3)), 'after': int(fm.group(4)), 'tables': fm.group(5), 'kv': fm.group(6).split()})
+    return res
 
 def replay(T, name, kv):
     p = subprocess.run([T['harness'], 'replay', name] + list(kv), capture_output=True, text=True, timeout=300)
@@ -209,25 +214,31 @@ def t_part(ctx, prop):
         for n, f in futs.items(): results[n] = f.result()
     for n, r in results.items():
         s = SCHEMAS[n]
-        if r['status'] == 'pass':
-            out['schemas'].append({'schema': n, 'grammar': s.note, 'bound_n': r['n'], 'tables': r['tables'], 'valid': r['valid'], 'accepted': r['accepted'],
-                                   'rejected': r['rejected'], 'wall_s': r['wall_s']})
-            out['evaluations'] += r['valid']
-            out['nontrivial'] += r['nontrivial']
-            if len(out['samples']) < 5:
-                out['samples'].append({'schema': n, 'grammar': open(os.path.join(T['gen'], n + '.ebnf')).read(), 'bound': 'input <= %d bytes' % r['n'],
-                                       'operand_tables_enumerated': r['valid'], 'accepted': r['accepted'], 'rejected': r['rejected']})
-        elif r['status'] == 'fail':
-            p_ = relabel(n, r['label'])
-            if p_ != prop:
-                out.setdefault('other_property_failures', []).append({'schema': n, 'reported_under': p_, 'what': r['what']})
-                continue
-            rp = ctx.replay_path('T-%s' % n)
-            out['violations'].append({'id': 'T:%s:%s' % (n, r['label']), 'layer': 'T', 'schema': n, 'assertion': r['what'], 'label': r['label'],
-                                      'replay': rp, 'no_failing_input': False, 'tables': r['tables'], 'kv': r['kv'], 'bound_n': r['n'],
-                                      'grammar': open(os.path.join(T['gen'], n + '.ebnf')).read(),
-                                      'what': 'schema %s [%s]: %s\n  operands/input: %s' % (n, s.note, r['what'], r['tables'])})
-        else:
+        if r['status'] == 'error':
             out['inconclusive'].append('schema %s: %s' % (n, r.get('why')))
+            continue
+        out['schemas'].append({'schema': n, 'grammar': s.note, 'bound_n': r['n'], 'tables': r['tables'], 'valid': r['valid'], 'accepted': r['accepted'],
+                               'rejected': r['rejected'], 'wall_s': r['wall_s']})
+        out['evaluations'] += r['valid']
+        out['nontrivial'] += r['nontrivial']
+        if len(out['samples']) < 5:
+            out['samples'].append({'schema': n, 'grammar': open(os.path.join(T['gen'], n + '.ebnf')).read(), 'bound': 'input <= %d bytes' % r['n'],
+                                   'operand_tables_enumerated': r['valid'], 'accepted': r['accepted'], 'rejected': r['rejected']})
+        for f in r['fails']:
+            under = relabel(n, f['label'])
+            if prop not in under:
+                out.setdefault('other_property_failures', []).append({'schema': n, 'reported_under': under, 'what': f['what']})
+                continue
+            rp = ctx.replay_path('T-%s-%s' % (n, f['label']))
+            out['violations'].append({'id': 'T:%s:%s' % (n, f['label']), 'layer': 'T', 'schema': n, 'assertion': f['what'], 'label': f['label'],
+                                      'replay': rp, 'no_failing_input': False, 'tables': f['tables'], 'kv': f['kv'], 'bound_n': r['n'],
+                                      'grammar': open(os.path.join(T['gen'], n + '.ebnf')).read(),
+                                      'what': 'schema %s [%s]: %s\n  operands/input: %s' % (n, s.note, f['what'], f['tables'])})
+    # a relevant schema whose generated code does not compile cannot be run: undecided for this property (it is a C03 violation)
+    for n in mine:
+        if n in T['excluded'] and prop not in ('C03', STATIC_PROP.get(n)):
+            out['inconclusive'].append('schema %s cannot be run: its generated code does not compile (reported under C03): %s' % (n, T['compile_violations'].get(n, [''])[0][:200]))
+    if not out['schemas'] and not out['violations'] and not out['static'] and prop != 'C03':
+        out['inconclusive'].append('no schema was run for %s' % prop)
     out['prepare_s'] = T.get('prepare_s')
     return out
